@@ -12,6 +12,9 @@ pub mod register;
 #[cfg(feature = "interpreter")]
 pub mod qasm;
 
+#[cfg(qvnt_verif)]
+pub mod verif;
+
 #[doc(hidden)]
 pub mod prelude {
     #[cfg(feature = "interpreter")]
